@@ -304,8 +304,9 @@ func (l *c03loader) load(th *starlark.Thread, module string) (starlark.StringDic
 		l.mu.Unlock()
 		return e.g, e.err
 	}
+	done := e.done // read under the lock (the loading task sets it under the lock)
 	l.mu.Unlock()
-	if !e.done && c.T != nil {
+	if !done && c.T != nil {
 		c.Probes["blocked_on_module_load"]++
 		c.T.Block(&e.w)
 	}
